@@ -363,6 +363,9 @@ func c05Program(t *rapid.T, ev *evProp, gi *GroupInfo, maxSteps int) {
 		}
 		c05Check(t, ev, s, op, step, history)
 	}
+	if why := constantsIntact(gi); why != "" {
+		violationOrKnown(t, ev, "C05/"+gi.Name+"/constant-corrupted", "after the program a group constant has changed: %s\nprogram: %s", why, strings.Join(history, "; "))
+	}
 	ev.Case(nontrivial, gi.Name+": "+strings.Join(history, "; "), labels...)
 }
 
